@@ -682,8 +682,9 @@ func (s *Storm) Run(clients, perClient int, faults bool) {
 				c := s.genCall(rr, true)
 				go func() {
 					defer wwg.Done()
-					// otherwise not "healthy" for the identity oracle: the pool may be cleared when it gets in
-					d := s.fire(rr, c, false, !reinstallFirst, 0, nil)
+					// never "healthy" for the identity oracle: the pool may be cleared when it gets in (then it is sent
+					// away with nothing); what the capacity oracle demands of it is checked right here
+					d := s.fire(rr, c, false, true, 0, nil)
 					if reinstallFirst {
 						// served, or - if it only arrived after the clear - sent away at once with nothing (nil error, empty
 						// result): anything else means a request that was waiting was given up
